@@ -212,6 +212,15 @@ class Subset(Obligation):
             # these obligations are listed by checks/c05.py)
             claim('source-XORIG-unchanged', eq(src.XORIG, vals['xorig']))
             claim('source-YORIG-unchanged', eq(src.YORIG, vals['yorig']))
+            sv = list(np.asarray(src.VGLVLS).reshape(-1))
+            claim('source-VGLVLS-unchanged', z3.And(
+                z3.BoolVal(len(sv) == len(vals['vglvls'])),
+                *[eq(g, e) for g, e in zip(sv, vals['vglvls'])]))
+            claim('source-dimensions-unchanged', z3.BoolVal(
+                dict((k, len(v)) for k, v in src.dimensions.items()
+                     if k in ('TSTEP', 'LAY', 'ROW', 'COL')) ==
+                {'TSTEP': self.T, 'LAY': self.L, 'ROW': self.R,
+                 'COL': self.C}))
         xo = vals['xorig'] + (first * vals['xcell'] if self.dim == 'COL'
                               else 0)
         yo = vals['yorig'] + (first * vals['ycell'] if self.dim == 'ROW'
